@@ -8,7 +8,9 @@
     igris/shell/vtermxx.cpp      igris::vtermxx::newdata (same, returns right after execute)
     igris/defs/vt100.h           vt100_left, VT100_* strings
   after the `fix:` commits of branch fix-C15 (newdata clamp, OVERFLOW return,
-  lastsize = cursor, CR LF pairing, escape state reset by Ctrl-C).
+  lastsize = cursor, CR LF pairing, escape state reset by Ctrl-C; extension:
+  unsigned int history indices, linecpy with maxlen 0, newdata with a negative
+  length).
 
   Memory: every buffer is a `List Byte`; every store / memmove / memcpy /
   memset / strlen is index-checked against the length of the object and sets
